@@ -790,6 +790,14 @@ func engineSweepFine(rng *rand.Rand, n int, tier string, o *Out) {
 	for i := 0; i < d5; i++ {
 		c19fRunCase(rng, i, 5, tier, o)
 	}
+	// kind 6: relayed calls that ended abnormally, then a forced sweep (engine_idlerelayend.go)
+	d6 := 60
+	if tier == "thorough" {
+		d6 = 240
+	}
+	for i := 0; i < d6; i++ {
+		c19xFineCase(rng, i, tier, o)
+	}
 	for i := 0; i < n; i++ {
 		c19fRunCase(rng, i, 0, tier, o)
 	}
